@@ -52,6 +52,16 @@ pub fn pkgname(input: &Value) -> Out {
             };
             probes.push(json!({"p": codes(&p), "m": m}));
         }
+        // ... and the one best_match uses: against a candidate whose version is the same with one
+        // more ".0" (equal under the dewey rule) and the next higher / the same revision
+        if let Ok(pat) = Pattern::new(&format!("{}>=0", base)) {
+            let core = &stem[..stem.len() - 2];
+            // (... and without a revision: more components, the lower revision)
+            for other in [format!("{}-{}.0nb{}", base, core, incr(&digits)), format!("{}-{}.0nb{}", base, core, digits), format!("{}-{}.0", base, core),
+                          format!("{}-{}.0.0nb0", base, core)] {
+                probes.push(json!({"p": codes(&format!("{}>=0", base)), "b": codes(&other), "w": opt_codes(pat.best_match(&s, &other))}));
+            }
+        }
     }
     // the matcher splits where PkgName does: a pattern whose base is the text before an EARLIER
     // '-' of the name must not match it
